@@ -177,7 +177,8 @@ func (s String) Count() int {
 func (s String) Has(value Value) bool {
 	if t, ok := value.(StringCharTuple); ok {
 		if s.offset <= t.at && t.at < s.offset+len(s.s) {
-			return t.char == s.s[t.at-s.offset]
+			// a negative rune marks a hole, which is not a member
+			return t.char >= 0 && t.char == s.s[t.at-s.offset]
 		}
 	}
 	return false
